@@ -8,6 +8,7 @@ import fam_cache
 import fam_cachecli
 import fam_cli
 import fam_genbank
+import fam_parse
 
 
 def lookup(prop):
@@ -31,4 +32,6 @@ def lookup(prop):
         return fam_cli.run
     if prop == "C01":
         return fam_genbank.run
+    if prop == "C07":
+        return fam_parse.run
     return None
